@@ -83,12 +83,12 @@ Definition V := Z.
 Record cstate := mkC {
   own : nat -> nat -> option V;
   bk : nat -> nat -> option (option V);       (* backup of the own entry (Some None = was inherited) *)
-  ov : nat -> bool                              (* report.overridden_feedbacks *)
+  ov : nat -> nat -> bool                       (* ov r c: class c is in the overridden_feedbacks of report r *)
 }.
 
 Inductive cop :=
-| Override (c : nat) (fields : list (nat * V))   (* cls.override(fields...) *)
-| Clear.                                         (* report.clear() / contextualize(clear=True) *)
+| Override (r c : nat) (fields : list (nat * V))   (* cls.override(report=r, fields...) *)
+| Clear (r : nat).                                 (* r.clear() / contextualize_report(.., report=r) *)
 
 Definition upd2 {A} (g : nat -> nat -> A) (c f : nat) (v : A) : nat -> nat -> A :=
   fun c' f' => if (Nat.eqb c c' && Nat.eqb f f')%bool then v else g c' f'.
@@ -101,13 +101,13 @@ Definition override1 (c : nat) (s : cstate) (fv : nat * V) : cstate :=
 
 Definition cstep (s : cstate) (o : cop) : cstate :=
   match o with
-  | Override c fields =>
+  | Override r c fields =>
       let s' := fold_left (override1 c) fields s in
-      mkC (own s') (bk s') (fun c' => if Nat.eqb c c' then true else ov s' c')
-  | Clear =>
-      mkC (fun c f => if ov s c then match bk s c f with Some x => x | None => own s c f end else own s c f)
-          (fun c f => if ov s c then None else bk s c f)
-          (fun _ => false)
+      mkC (own s') (bk s') (upd2 (ov s') r c true)
+  | Clear r =>
+      mkC (fun c f => if ov s r c then match bk s c f with Some x => x | None => own s c f end else own s c f)
+          (fun c f => if ov s r c then None else bk s c f)
+          (fun r' c => if Nat.eqb r r' then false else ov s r' c)
   end.
 
 Definition crun (s : cstate) (ops : list cop) : cstate := fold_left cstep ops s.
